@@ -498,6 +498,19 @@ def _tensor_pipe(st, P, cur, ci, fuse, lastl, fail, col):
         B2d = dense(B2, 'combine_legs(default pipe)')
         if not np.array_equal(B2d, exp) or not HL.same_data(HL.proj_leg(B2.legs[0]), P['out']):
             fail('combine_legs(default pipe)', got=B2d.tolist(), exp=exp.tolist())
+    if not nested:
+        # a given pipe is conjugated by combine_legs when the legs of the tensor point the other way
+        try:
+            Bc = A.conj().combine_legs(list(range(n)), pipes=[cur])
+        except Exception as e:
+            fail('combine_legs(conj tensor)', got='%s: %s' % (type(e).__name__, str(e)[:300]), exc=type(e).__name__)
+        Bcd = dense(Bc, 'combine_legs(conj tensor)')
+        pc = HL.proj_leg(Bc.legs[0])
+        want = HL.plain(P['out'])
+        if not np.array_equal(Bcd, exp) or pc['qconj'] != -want['qconj'] or pc['charges'] != want['charges'] \
+                or pc['sizes'] != want['sizes'] or not isinstance(Bc.legs[0], LegPipe) \
+                or [int(l.qconj) for l in Bc.legs[0].legs] != [-int(r['qconj']) for r in P['legs']]:
+            fail('combine_legs(conj tensor)', got=dict(leg=pc, data=Bcd.tolist()), exp=dict(leg=want, data=exp.tolist()))
     if nested or n != 1 or fuse['qconj'] != P['legs'][0]['qconj']:
         return
     # one leg, same direction: sort_legcharge / as_completely_blocked are this pipe in disguise
